@@ -36,5 +36,49 @@ pub fn cmd_equiv(a: &Args) {
     });
     let mut lines = vec![json!({"ev": "reset"}).to_string()];
     lines.extend(res);
+    // large frameworks (thousands of arguments: a grounded part plus many even cycles): the bookkeeping part of C19 -- the classes
+    // partition the arguments and the two mappings are total and inverse -- is checked here on the real result (the complete
+    // extensions of such frameworks are out of reach); TLC judges the verdict fields
+    let nbig = a.num("big", 0);
+    for i in 0..nbig {
+        let n_cycles = 1500 + 700 * (i % 4);
+        let mut att: Vec<(usize, usize)> = vec![(1, 2), (2, 3)];
+        let mut nxt = 4;
+        for _ in 0..n_cycles {
+            att.push((nxt, nxt + 1));
+            att.push((nxt + 1, nxt));
+            nxt += 2;
+        }
+        if i % 2 == 1 {
+            att.push((3, 4));
+        }
+        let spec = afio::AfSpec { n: nxt - 1, att, tag: "bigcycles".into() };
+        let af = afio::build_compact(&spec);
+        let r = catch_unwind(AssertUnwindSafe(|| {
+            let ec = EquivalencyComputer::new(&af);
+            let red = ec.reduced_af();
+            let mut seen = vec![0usize; af.n_arguments()];
+            let mut inverse_ok = true;
+            for rarg in red.argument_set().iter() {
+                for x in ec.reduced_arg_to_init_args(rarg) {
+                    seen[x.id()] += 1;
+                    if ec.init_to_reduced_arg(x).id() != rarg.id() {
+                        inverse_ok = false;
+                    }
+                }
+            }
+            let partition_ok = seen.iter().all(|c| *c == 1);
+            let total_ok = af.argument_set().iter().all(|x| {
+                let r = ec.init_to_reduced_arg(x);
+                ec.reduced_arg_to_init_args(r).iter().any(|y| y.id() == x.id())
+            });
+            (partition_ok, inverse_ok, total_ok, red.n_arguments())
+        }));
+        let (res, p_ok, i_ok, t_ok, rn) = match r {
+            Ok(t) => ("ok", t.0, t.1, t.2, t.3),
+            Err(_) => ("panic", false, false, false, 0),
+        };
+        lines.push(json!({"ev": "equivbig", "n": spec.n, "res": res, "partition_ok": p_ok, "inverse_ok": i_ok, "total_ok": t_ok, "rn": rn}).to_string());
+    }
     util::write_lines(&out, lines.into_iter());
 }
